@@ -14,7 +14,7 @@ Definition run_c01 (c : ty * val) : ob :=
   let '(t, v) := c in
   let n := mkv t v in
   let viadec := do nd <- n; do e <- serv t nd; do x <- deserv t (fst e) (lenN (fst e)); Ok (fst x) in
-  ob_anyerr (OL [oroot n; oroot viadec; oroot n; oroot n]).
+  ob_anyerr (OL [oroot n; oroot viadec; oroot n; oroot n; oroot n]).
 
 (* C02: encode_bytes, serialize(stream) (bytes, returned count), bytes(value) *)
 Definition run_c02 (c : ty * val) : ob :=
